@@ -16,16 +16,25 @@ import (
 
 // Case is one call. Which fields matter depends on Fn.
 type Case struct {
-	Fn string   `json:"fn"`
-	L  []int    `json:"l,omitempty"`  // the slice argument
-	U  []int    `json:"u,omitempty"`  // unwanted / exclude slice
-	M  [][2]int `json:"m,omitempty"`  // map entries in insertion order (distinct keys)
-	V  int      `json:"v,omitempty"`  // value / index / seed / key
-	W  int      `json:"w,omitempty"`  // fallback
-	P  []int    `json:"p,omitempty"`  // callback parameters: acc a b c m | pred m | key m | conv a b m r | eq m-or-d
-	R  []int    `json:"r,omitempty"`  // residues of a predicate
-	Eq string   `json:"eq,omitempty"` // "mod" | "near" | "le"
+	Fn  string   `json:"fn"`
+	L   []int    `json:"l,omitempty"`   // the slice argument
+	U   []int    `json:"u,omitempty"`   // unwanted / exclude slice
+	M   [][2]int `json:"m,omitempty"`   // map entries in insertion order (distinct keys)
+	V   int      `json:"v,omitempty"`   // value / index / seed / key
+	W   int      `json:"w,omitempty"`   // fallback
+	P   []int    `json:"p,omitempty"`   // callback parameters: acc a b c m | pred m | key m | conv a b m r | eq m-or-d
+	R   []int    `json:"r,omitempty"`   // residues of a predicate
+	Eq  string   `json:"eq,omitempty"`  // "mod" | "near" | "le"
+	Sp  int      `json:"sp,omitempty"`  // spare capacity of the slice arguments: 0 = the default 3, -1 = none, k > 0 = k cells
+	Nil bool     `json:"nil,omitempty"` // pass a nil slice / nil map instead of an empty one (only when L / M is empty)
 }
+
+// emitModel: whether exec hands the current case to the Coq model as well. The oracle-heavy stream switches it
+// off for most of its (large) cases: they are checked by the direct oracle only.
+var emitModel = true
+
+// cases above this size are never sent to the model (the model's loops are quadratic in vm_compute)
+const maxModelSize = 600
 
 func init() {
 	core.Register(&core.Prop{ID: "C14", Module: "Slices.FuncCheck", Run: run, Replay: replay})
@@ -156,6 +165,7 @@ func refFirstOccs(l []int, eq func(a, b int) bool) []int {
 		for j := 0; j < i; j++ {
 			if eq(l[j], v) {
 				seen = true
+				break
 			}
 		}
 		if !seen {
@@ -163,6 +173,37 @@ func refFirstOccs(l []int, eq func(a, b int) bool) []int {
 		}
 	}
 	return r
+}
+
+// the same by class: class(a) == class(b) iff a and b are equal; linear, used for long inputs
+func refFirstOccsByClass(l []int, class func(int) int) []int {
+	r := []int{}
+	seen := map[int]bool{}
+	for _, v := range l {
+		if !seen[class(v)] {
+			seen[class(v)] = true
+			r = append(r, v)
+		}
+	}
+	return r
+}
+
+const quadraticLimit = 600 // longer inputs use the linear references
+
+func firstOccsInts(l []int) []int {
+	if len(l) <= quadraticLimit {
+		return refFirstOccs(l, func(a, b int) bool { return a == b })
+	}
+	return refFirstOccsByClass(l, func(v int) int { return v })
+}
+
+// members of every key's group in original order (one pass)
+func refMembers(l []int, key func(int) int) map[int][]int {
+	m := map[int][]int{}
+	for _, v := range l {
+		m[key(v)] = append(m[key(v)], v)
+	}
+	return m
 }
 
 // greedy: kept iff not equal to an element kept before (the definition when eq is not transitive)
@@ -197,11 +238,17 @@ func refTrim(l []int, p func(int) bool, left, right bool) (int, int) {
 
 const sentinel = 777777
 
-func guarded(l []int) (in, buf []int) {
+func guarded(l []int, sp int) (in, buf []int) {
 	if l == nil {
 		return nil, nil
 	}
-	buf = make([]int, len(l)+3)
+	spare := 3
+	if sp < 0 {
+		spare = 0
+	} else if sp > 0 {
+		spare = sp
+	}
+	buf = make([]int, len(l)+spare)
 	copy(buf, l)
 	for i := len(l); i < len(buf); i++ {
 		buf[i] = sentinel + i
@@ -226,6 +273,31 @@ func scribble(r []int) {
 	for i := range full {
 		full[i] = -424242 - i
 	}
+}
+
+// diffLists describes how got differs from want (whole lists when short, else the first difference)
+func diffLists(got, want []int) string {
+	if len(got) <= 48 && len(want) <= 48 {
+		return fmt.Sprintf("got %v want %v", got, want)
+	}
+	i := 0
+	for i < len(got) && i < len(want) && got[i] == want[i] {
+		i++
+	}
+	win := func(l []int) []int {
+		lo, hi := i-3, i+4
+		if lo < 0 {
+			lo = 0
+		}
+		if hi > len(l) {
+			hi = len(l)
+		}
+		if lo > hi {
+			lo = hi
+		}
+		return l[lo:hi]
+	}
+	return fmt.Sprintf("len got %d want %d; first difference at index %d: got ...%v... want ...%v...", len(got), len(want), i, win(got), win(want))
 }
 
 func hasDup(l []int) bool {
@@ -275,8 +347,19 @@ func exec(c *core.Ctx, cs Case) {
 func execSlice(c *core.Ctx, cs Case) {
 	l := cs.L
 	n := len(l)
-	in, buf := guarded(l)
-	uin, ubuf := guarded(cs.U)
+	in, buf := guarded(l, cs.Sp)
+	uin, ubuf := guarded(cs.U, cs.Sp)
+	if cs.Nil && n == 0 {
+		in = nil // "passing a nil slice is equivalent to passing an empty slice"
+		c.Count("nil_slice")
+	}
+	big := n > maxModelSize || len(cs.U) > maxModelSize
+	if n > 64 {
+		c.Count("len_65+")
+	}
+	if n > 1000 {
+		c.Count("len_1001+")
+	}
 	if n >= 3 && hasDup(l) {
 		c.Nontrivial()
 	}
@@ -291,10 +374,10 @@ func execSlice(c *core.Ctx, cs Case) {
 		c.Count("len_2+_nodup")
 	}
 	L := core.ZList(l)
-	var term string  // Coq case; stays "" when the observation cannot be expressed (unexpected panic)
-	var ret []int    // returned slice, probed for aliasing below
-	subslice := -1   // >= 0: the result must be the sub-slice of the input starting there (Trim family)
-	var kind string  // panic kind of the call
+	var term string // Coq case; stays "" when the observation cannot be expressed (unexpected panic)
+	var ret []int   // returned slice, probed for aliasing below
+	subslice := -1  // >= 0: the result must be the sub-slice of the input starting there (Trim family)
+	var kind string // panic kind of the call
 	call := func(f func()) bool { kind = core.Try(f); return kind == "" }
 	noPanic := func() {
 		if kind != "" {
@@ -303,7 +386,7 @@ func execSlice(c *core.Ctx, cs Case) {
 	}
 	expectList := func(got, want []int, what string) {
 		if kind == "" && !core.Eq(got, want) {
-			c.Fail(cs.Fn+": "+what, fmt.Sprintf("got %v want %v", got, want))
+			c.Fail(cs.Fn+": "+what, diffLists(got, want))
 		}
 	}
 	expectInt := func(got, want int, what string) {
@@ -405,7 +488,7 @@ func execSlice(c *core.Ctx, cs Case) {
 		var got []int
 		call(func() { got = slices.Distinct(in) })
 		noPanic()
-		expectList(got, refFirstOccs(l, func(a, b int) bool { return a == b }), "first occurrences in original order")
+		expectList(got, firstOccsInts(l), "first occurrences in original order")
 		if kind == "" {
 			term = fmt.Sprintf("CDistinct %s %s", L, core.ZList(got))
 			ret = got
@@ -416,7 +499,12 @@ func execSlice(c *core.Ctx, cs Case) {
 		call(func() { got = slices.DistinctFunc(in, eq) })
 		noPanic()
 		if cs.Eq == "mod" || (cs.Eq == "le" && cs.P[0] == 0) { // transitive
-			expectList(got, refFirstOccs(l, eq), "first occurrences up to equals, in original order")
+			if cs.Eq == "mod" && n > quadraticLimit {
+				m := cs.P[0]
+				expectList(got, refFirstOccsByClass(l, func(v int) int { return mod(v, m) }), "first occurrences up to equals, in original order")
+			} else {
+				expectList(got, refFirstOccs(l, eq), "first occurrences up to equals, in original order")
+			}
 		} else {
 			expectList(got, refGreedy(l, eq), "elements not equal(kept element, element) to an element kept before")
 		}
@@ -578,7 +666,8 @@ func execSlice(c *core.Ctx, cs Case) {
 		for i, v := range l {
 			keys[i] = key(v)
 		}
-		wantKeys := refFirstOccs(keys, func(a, b int) bool { return a == b })
+		wantKeys := firstOccsInts(keys)
+		members := refMembers(l, key)
 		gotKeys := []int{}
 		parts := []string{}
 		total := 0
@@ -587,7 +676,11 @@ func execSlice(c *core.Ctx, cs Case) {
 			parts = append(parts, core.Pair(core.Z(g.Key), core.ZList(g.Values)))
 			total += len(g.Values)
 			k := g.Key
-			expectList(g.Values, refFilter(l, func(v int) bool { return key(v) == k }), "members of a group in original order")
+			if n > quadraticLimit {
+				expectList(g.Values, members[k], "members of a group in original order")
+			} else {
+				expectList(g.Values, refFilter(l, func(v int) bool { return key(v) == k }), "members of a group in original order")
+			}
 		}
 		expectList(gotKeys, wantKeys, "group keys in order of first appearance")
 		expectInt(total, n, "group sizes sum to n")
@@ -608,7 +701,8 @@ func execSlice(c *core.Ctx, cs Case) {
 		for i, v := range l {
 			keys[i] = key(v)
 		}
-		wantKeys := refFirstOccs(keys, func(a, b int) bool { return a == b })
+		wantKeys := firstOccsInts(keys)
+		members := refMembers(l, key)
 		gotKeys := []int{}
 		pairs := [][2]int{}
 		total := 0
@@ -617,7 +711,11 @@ func execSlice(c *core.Ctx, cs Case) {
 			pairs = append(pairs, [2]int{g.Key, g.Count})
 			total += g.Count
 			k := g.Key
-			expectInt(g.Count, len(refFilter(l, func(v int) bool { return key(v) == k })), "count of a key")
+			if n > quadraticLimit {
+				expectInt(g.Count, len(members[k]), "count of a key")
+			} else {
+				expectInt(g.Count, len(refFilter(l, func(v int) bool { return key(v) == k })), "count of a key")
+			}
 		}
 		expectList(gotKeys, wantKeys, "keys in order of first appearance")
 		expectInt(total, n, "counts sum to n")
@@ -629,12 +727,20 @@ func execSlice(c *core.Ctx, cs Case) {
 		} else {
 			set := maps.NewSetFromSlice(cs.U)
 			call(func() { got = slices.ExceptSet(in, set) })
-			if set.Len() != len(refFirstOccs(cs.U, func(a, b int) bool { return a == b })) {
+			if set.Len() != len(firstOccsInts(cs.U)) {
 				c.Fail("ExceptSet modified the exclude set", set.String())
 			}
 		}
 		noPanic()
-		expectList(got, refFilter(l, func(v int) bool { return refIndex(cs.U, func(y int) bool { return y == v }) < 0 }),
+		excluded := map[int]bool{}
+		for _, y := range cs.U {
+			excluded[y] = true
+		}
+		inU := func(v int) bool { return refIndex(cs.U, func(y int) bool { return y == v }) >= 0 }
+		if n*len(cs.U) > quadraticLimit*quadraticLimit {
+			inU = func(v int) bool { return excluded[v] }
+		}
+		expectList(got, refFilter(l, func(v int) bool { return !inU(v) }),
 			"elements not in exclude, in original order")
 		if kind == "" {
 			term = fmt.Sprintf("C%s %s %s %s", cs.Fn, L, core.ZList(cs.U), core.ZList(got))
@@ -657,15 +763,25 @@ func execSlice(c *core.Ctx, cs Case) {
 	if !intact(buf, l) || (cs.U != nil && !intact(ubuf, cs.U)) {
 		c.Fail(cs.Fn+": returned slice shares memory with an argument", "writing to the result changed the input")
 	}
-	if term != "" {
+	if term != "" && emitModel && !big {
 		c.Emit(term)
+		c.Count("sent_to_model")
+	} else {
+		c.Count("oracle_only")
 	}
 }
 
 func execMap(c *core.Ctx, cs Case) {
 	m := map[int]int{}
+	if cs.Nil && len(cs.M) == 0 {
+		m = nil // every helper must accept a nil map (Clear and the readers are no-ops on it)
+		c.Count("nil_map")
+	}
 	for _, e := range cs.M {
 		m[e[0]] = e[1]
+	}
+	if len(cs.M) > 64 {
+		c.Count("map_65+")
 	}
 	snap := map[int]int{}
 	vals := map[int]int{}
@@ -805,7 +921,12 @@ func execMap(c *core.Ctx, cs Case) {
 	if !cleared && !same(m, snap) {
 		c.Fail(cs.Fn+": input map modified (directly or through the result)", fmt.Sprintf("now %v was %v", m, snap))
 	}
-	c.Emit(term)
+	if emitModel && len(cs.M) <= maxModelSize {
+		c.Emit(term)
+		c.Count("sent_to_model")
+	} else {
+		c.Count("oracle_only")
+	}
 }
 
 // ---- generation ----
@@ -911,6 +1032,8 @@ func run(c *core.Ctx) {
 		"(3 accumulators x 2 seeds, 3 predicates, 3 keyers, 4 converters, 5 equalities, 4 unwanted/exclude sets); "+
 		"index family on all lengths 0..6 x all indices -2..n+1; all 27 maps with keys in {0,1,2}, values in {0,1} x 7 map functions; plus random", maxLen))
 
+	heavy(c)
+
 	// random: longer lists with duplicates and negative values, random callback parameters
 	for i := c.N(3000, 60000, 30000); i > 0; i-- {
 		r := c.Rng
@@ -982,4 +1105,385 @@ func run(c *core.Ctx) {
 		}
 		exec(c, cs)
 	}
+}
+
+// ---- oracle-heavy, model-sampled stream ----
+//
+// Many more and much larger cases than the model can replay in the quick tier: every case is run on the real
+// code and judged by the direct oracle (plus the input-untouched / aliasing probes); only a small sample of the
+// smaller ones is also sent to the Coq model. Every dimension that could hide a size threshold in an
+// implementation is swept over [thresholds]: slice length, number of distinct values / classes / groups, position
+// of the first match or error, length of the unwanted prefix and suffix, size of the unwanted / exclude set,
+// index magnitude and sign, number of map entries, spare capacity of the arguments, nil arguments, value range.
+
+var thresholds = []int{0, 1, 2, 3, 4, 5, 6, 7, 8, 9, 13, 14, 15, 16, 17, 26, 27, 31, 32, 33, 34, 52, 53, 63, 64, 65,
+	127, 128, 129, 255, 256, 257, 511, 512, 513, 1023, 1024, 1025, 2047, 2048, 2049, 4095, 4096, 4097}
+
+func affine(n, scale, off int) []int {
+	l := make([]int, n)
+	for i := range l {
+		l[i] = i*scale + off
+	}
+	return l
+}
+func shuffled(r *core.Rand, l []int) []int {
+	p := clone(l)
+	for i := len(p) - 1; i > 0; i-- {
+		j := r.Intn(i + 1)
+		p[i], p[j] = p[j], p[i]
+	}
+	return p
+}
+
+// a threshold-ish position inside a list of length n
+func pickPos(r *core.Rand, n int) int {
+	if n <= 1 {
+		return 0
+	}
+	switch r.Intn(5) {
+	case 0:
+		return 0
+	case 1:
+		return n - 1
+	case 2:
+		return n / 2
+	default:
+		t := thresholds[r.Intn(len(thresholds))]
+		for t >= n {
+			t = thresholds[r.Intn(len(thresholds))]
+		}
+		return t
+	}
+}
+func pickThreshold(r *core.Rand, max int) int {
+	t := thresholds[r.Intn(len(thresholds))]
+	for t > max {
+		t = thresholds[r.Intn(len(thresholds))]
+	}
+	return t
+}
+
+// heavyExec runs one case of the heavy stream; small cases are sampled into the model
+func heavyExec(c *core.Ctx, cs Case) {
+	size := len(cs.L) + len(cs.U) + len(cs.R) + len(cs.M)
+	emitModel = (size <= 70 && c.Rng.Intn(14) == 0) || (size <= 260 && c.Rng.Intn(80) == 0)
+	c.Count("heavy_cases")
+	exec(c, cs)
+	emitModel = true
+}
+
+// callback parameters and second arguments that make the thresholds of [cs.L] (d distinct values) matter
+func heavyParams(r *core.Rand, cs *Case, d int) {
+	n := len(cs.L)
+	at := func() int { // a value sitting at a threshold-ish position
+		if n == 0 {
+			return 0
+		}
+		return cs.L[pickPos(r, n)]
+	}
+	if d < 1 {
+		d = 1
+	}
+	around := func(x int) int { // x-1, x, x+1, at least 1
+		y := x + r.Range(-1, 1)
+		if y < 1 {
+			y = 1
+		}
+		return y
+	}
+	switch cs.Fn {
+	case "Index", "Contains":
+		cs.V = at()
+		if r.Chance(20) {
+			cs.V = -77 // absent
+		}
+	case "ContainsFunc", "DistinctFunc":
+		cs.V = at()
+		switch r.Intn(6) {
+		case 0:
+			cs.Eq, cs.P = "near", []int{r.Range(0, 2)}
+		case 1:
+			cs.Eq, cs.P = "le", []int{r.Range(-1, 0)}
+		case 2:
+			cs.Eq, cs.P = "mod", []int{r.Range(1, 3)}
+		default:
+			cs.Eq, cs.P = "mod", []int{around(pickThreshold(r, d+1))} // number of classes at a threshold
+		}
+	case "IndexFunc", "Any", "All", "Filter", "TrimFunc", "TrimLeftFunc", "TrimRightFunc":
+		switch r.Intn(4) {
+		case 0: // exactly the values equal to one value (modulus above every value)
+			m := d + 1 + r.Intn(2)
+			cs.P, cs.R = []int{m}, []int{mod(at(), m)}
+		case 1: // every value but the multiples of a threshold
+			m := around(pickThreshold(r, d+1))
+			if m > 48 {
+				m = 48
+			}
+			cs.P, cs.R = []int{m}, affine(m-1, 1, 1)
+		case 2: // nothing / everything
+			if r.Bool() {
+				cs.P, cs.R = []int{1}, []int{0}
+			} else {
+				cs.P, cs.R = []int{1}, []int{}
+			}
+		default:
+			m := r.Range(2, 5)
+			cs.P, cs.R = []int{m}, []int{r.Intn(m)}
+		}
+	case "Trim", "TrimLeft", "TrimRight", "Except", "ExceptSet":
+		k := pickThreshold(r, d) // that many of the values, then some foreign ones, possibly repeated
+		seenV := map[int]bool{}
+		cs.U = []int{}
+		for _, v := range cs.L {
+			if len(cs.U) >= k {
+				break
+			}
+			if !seenV[v] {
+				seenV[v] = true
+				cs.U = append(cs.U, v)
+			}
+		}
+		if r.Chance(30) && len(cs.U) > 0 {
+			cs.U = append(cs.U, cs.U[r.Intn(len(cs.U))], -99)
+		}
+		if r.Chance(30) {
+			cs.U = shuffled(r, cs.U)
+		}
+	case "TryGet", "SafeGet", "SafeGetOr":
+		cs.V = []int{-1, 0, n - 1, n, n + 1, pickPos(r, n), -n}[r.Intn(7)]
+		cs.W = -7
+	case "Map", "MapErr":
+		m := d + 1
+		rr := m // never errs
+		if r.Chance(70) {
+			rr = mod(at(), m) // errs at the first occurrence of that value
+		}
+		cs.P = []int{r.Range(-2, 3), r.Range(-3, 3), m, rr}
+	case "Fold", "FoldReverse":
+		cs.V = r.Range(-5, 20)
+		cs.P = []int{r.Range(0, 5), r.Range(-2, 5), r.Range(0, 9), r.Range(2, 997)}
+	case "GroupBy", "CountBy":
+		if r.Chance(25) {
+			cs.P = []int{r.Range(1, 3)}
+		} else {
+			cs.P = []int{around(pickThreshold(r, d+1))} // number of groups at a threshold
+		}
+	}
+}
+
+func heavy(c *core.Ctx) {
+	r := c.Rng
+	before := c.Evals
+	spares := []int{0, 0, 0, -1, 1, 64}
+	// A. length x number of distinct values: every value appears, and appears again later
+	for _, d := range thresholds {
+		patterns := 6
+		if d > 600 {
+			patterns = 2
+		}
+		for _, fn := range sliceFns {
+			for pat := 0; pat < patterns; pat++ {
+				scale, off := 1, 0
+				if r.Chance(25) {
+					scale, off = r.Range(1, 3), -d
+				}
+				base := affine(d, scale, off)
+				var l []int
+				switch pat {
+				case 0: // 0..d-1 twice, in order: the k-th distinct value repeats later, for every k
+					l = append(clone(base), base...)
+				case 1: // random with repeats
+					n := 3 * d
+					if n > 4097 {
+						n = 4097
+					}
+					l = make([]int, n)
+					for i := range l {
+						l[i] = base[r.Intn(d)]
+					}
+				case 2: // two different orders
+					l = append(shuffled(r, base), shuffled(r, base)...)
+				case 3: // all distinct
+					l = base
+				case 4: // all equal
+					l = make([]int, d)
+					for i := range l {
+						l[i] = off
+					}
+				default: // first appearances interleaved with repeats of the value just before
+					l = []int{}
+					for i, v := range base {
+						l = append(l, v)
+						if i > 0 {
+							l = append(l, base[i-1])
+						}
+					}
+				}
+				if d == 0 {
+					l = []int{}
+				}
+				cs := Case{Fn: fn, L: l, Sp: spares[r.Intn(len(spares))], Nil: len(l) == 0 && r.Bool()}
+				heavyParams(r, &cs, d)
+				heavyExec(c, cs)
+			}
+		}
+	}
+	// B. position of the only / first match (or failing conversion) in a long slice
+	for _, n := range thresholds {
+		if n == 0 {
+			continue
+		}
+		for _, fn := range []string{"Index", "IndexFunc", "Contains", "ContainsFunc", "Any", "All", "MapErr", "Filter", "Map", "Last", "Fold", "FoldReverse"} {
+			tries := 5
+			if n > 600 {
+				tries = 3
+			}
+			for k := 0; k < tries; k++ {
+				l := make([]int, n)
+				pos := pickPos(r, n)
+				if k == 0 {
+					pos = n - 1
+				}
+				marks := 1
+				if k == 1 {
+					marks = 0 // no match at all
+				} else {
+					l[pos] = 1
+					if r.Bool() && pos+1 < n {
+						l[r.Range(pos+1, n-1)] = 1 // and a later one
+						marks = 2
+					}
+				}
+				_ = marks
+				cs := Case{Fn: fn, L: l, V: 1, Sp: spares[r.Intn(len(spares))]}
+				switch fn {
+				case "IndexFunc", "Any", "Filter":
+					cs.P, cs.R = []int{2}, []int{1}
+				case "All":
+					cs.P, cs.R = []int{2}, []int{0}
+				case "ContainsFunc":
+					cs.Eq, cs.P = "mod", []int{2}
+				case "MapErr", "Map":
+					cs.P = []int{3, 1, 2, 1}
+				case "Fold", "FoldReverse":
+					cs.V, cs.P = 3, []int{2, 3, 1, 997}
+				}
+				heavyExec(c, cs)
+			}
+		}
+	}
+	// C. Trim family: unwanted prefix of length a, suffix of length b, a middle that starts and ends with a
+	// wanted value (or is empty: everything unwanted), unwanted set of size k
+	for _, a := range thresholds {
+		for _, fn := range []string{"Trim", "TrimLeft", "TrimRight", "TrimFunc", "TrimLeftFunc", "TrimRightFunc"} {
+			for try := 0; try < 3; try++ {
+				b := pickThreshold(r, 4097)
+				if try == 0 {
+					b = a
+				}
+				if a+b > 4200 {
+					b = 4200 - a
+				}
+				k := []int{1, 2, 3, 33, 65}[r.Intn(5)] // unwanted values 0..k-1 (Func: v mod m < k with m = k+3)
+				mid := []int{}
+				if try != 1 {
+					for i := r.Range(1, 9); i > 0; i-- {
+						mid = append(mid, r.Intn(k+3)) // wanted and unwanted mixed
+					}
+					mid[0], mid[len(mid)-1] = k+r.Intn(3), k+r.Intn(3)
+				}
+				l := []int{}
+				for i := 0; i < a; i++ {
+					l = append(l, r.Intn(k))
+				}
+				l = append(l, mid...)
+				for i := 0; i < b; i++ {
+					l = append(l, r.Intn(k))
+				}
+				cs := Case{Fn: fn, L: l, Sp: spares[r.Intn(len(spares))]}
+				if fn == "TrimFunc" || fn == "TrimLeftFunc" || fn == "TrimRightFunc" {
+					cs.P, cs.R = []int{k + 3}, affine(k, 1, 0)
+				} else {
+					cs.U = affine(k, 1, 0)
+				}
+				heavyExec(c, cs)
+			}
+		}
+	}
+	// D. index magnitude and sign
+	const maxInt = int(^uint(0) >> 1)
+	for _, n := range []int{0, 1, 5, 33, 1025} {
+		l := affine(n, 2, 10)
+		for _, i := range []int{-1, 1 << 31, 1<<31 - 1, -(1 << 31), -(1 << 31) - 1, 1 << 32, 1<<32 + n - 1, -(1 << 32), 1 << 62, maxInt, -maxInt, -maxInt - 1, n, -n, n - 1, 65536 + n - 1} {
+			for _, fn := range []string{"TryGet", "SafeGet", "SafeGetOr"} {
+				cs := Case{Fn: fn, L: l, V: i, W: -7, Nil: n == 0 && i%2 == 0}
+				emitModel = n <= 33
+				c.Count("heavy_cases")
+				exec(c, cs)
+				emitModel = true
+			}
+		}
+	}
+	// E. wide values (only functions that compare, never compute on, the elements)
+	for i := 0; i < 400; i++ {
+		n := pickThreshold(r, 260)
+		pool := []int{maxInt, -maxInt - 1, maxInt - 1, 0, -1, 1 << 32, -(1 << 32), 1 << 53, 1<<53 + 1, 1 << 62}
+		l := make([]int, n)
+		for j := range l {
+			l[j] = pool[r.Intn(len(pool))]
+		}
+		fn := []string{"Index", "Contains", "Distinct", "Except", "ExceptSet", "Trim", "TrimLeft", "TrimRight", "Last", "TryGet", "GroupBy", "CountBy", "Filter"}[r.Intn(13)]
+		cs := Case{Fn: fn, L: l, V: pool[r.Intn(len(pool))], Sp: spares[r.Intn(len(spares))]}
+		switch fn {
+		case "Except", "ExceptSet", "Trim", "TrimLeft", "TrimRight":
+			cs.U = []int{pool[r.Intn(len(pool))], pool[r.Intn(len(pool))], pool[r.Intn(len(pool))]}
+		case "TryGet":
+			cs.V = pickPos(r, n)
+		case "GroupBy", "CountBy":
+			cs.P = []int{r.Range(1, 7)}
+		case "Filter":
+			cs.P, cs.R = []int{7}, []int{0, 1, 3}
+		}
+		heavyExec(c, cs)
+	}
+	// F. maps: number of entries at every threshold (Go maps grow at 6.5 entries per bucket: 13/14, 26/27, 52/53, ...)
+	for _, n := range thresholds {
+		for _, fn := range mapFns {
+			for variant := 0; variant < 3; variant++ {
+				keys := affine(n, 1, 0)
+				switch r.Intn(3) {
+				case 0:
+					keys = affine(n, 7, -3*n)
+				case 1:
+					keys = shuffled(r, keys)
+				}
+				es := make([][2]int, n)
+				for i, k := range keys {
+					switch variant {
+					case 0:
+						es[i] = [2]int{k, i} // all values distinct
+					case 1:
+						es[i] = [2]int{k, 4} // all values equal
+					default:
+						es[i] = [2]int{k, r.Intn(5)}
+					}
+				}
+				cs := Case{Fn: fn, M: es, Nil: n == 0 && variant == 0}
+				switch fn {
+				case "ContainsValue", "KeyOf":
+					cs.V = []int{4, n - 1, n, -1, pickPos(r, n)}[r.Intn(5)]
+				case "HasKey", "Clone":
+					cs.V = -5
+					if n > 0 && r.Chance(70) {
+						cs.V = keys[pickPos(r, n)]
+					}
+				}
+				heavyExec(c, cs)
+			}
+		}
+	}
+	c.Note(fmt.Sprintf("oracle-heavy stream: %d cases judged by the direct oracle and the untouched-input / aliasing probes, a sample of the small ones "+
+		"also replayed by the model; sweeps over %v of: slice length, number of distinct values / classes / groups, position of the first match or "+
+		"failing conversion, unwanted prefix and suffix length, unwanted / exclude set size, number of map entries; index magnitude up to +-2^63; "+
+		"spare capacity 0/1/3/64; nil slice and nil map; values up to +-2^63", c.Evals-before, thresholds))
 }
